@@ -320,7 +320,7 @@ def run_case(rec, case, shrink=True):
         seen.add(v["key"])
         small, detail = case, v["detail"]
         if shrink and rec.counters.get("violations:" + v["key"], 0) < 6:
-            for cand in _candidates(case, v["detail"]):
+            for cand in _candidates(case, v["detail"], v["key"]):
                 p2 = Probe()
                 _mon["rec"] = p2
                 try:
@@ -336,22 +336,29 @@ def run_case(rec, case, shrink=True):
         rec.violation(v["key"], small, detail)
 
 
-def _candidates(case, detail):
+WITNESS_0D = {"kind": "sat", "cls": "fixed-0d", "T": [260.0], "containers": ["0d"],
+              "only": "mixed"}
+
+
+def _candidates(case, detail, key=None):
+    if key == "mixed-0d-typeerror" and case != WITNESS_0D:
+        yield WITNESS_0D                 # every 0-d temperature fails the same way
     idx = detail.get("index") if isinstance(detail, dict) else None
     fn = detail.get("function") if isinstance(detail, dict) else None
     base = dict(case)
     if fn is not None:
         base["only"] = fn
     if case["kind"] in ("float", "sat", "branch"):
-        key = "vals" if case["kind"] == "float" else "T"
-        vals = case[key]
+        fld = "vals" if case["kind"] == "float" else "T"
+        vals = case[fld]
         if idx is not None and 0 <= idx < len(vals):
             for cont in (detail.get("container"), "1d"):
                 if cont is None:
                     continue
                 lo = max(0, idx - 1)
-                yield dict(base, **{key: [vals[idx]], "containers": [cont], "wbig": None})
-                yield dict(base, **{key: vals[lo:idx + 2], "containers": [cont], "wbig": None})
+                extra = {"wbig": None} if case["kind"] == "float" else {}
+                yield dict(base, **dict({fld: [vals[idx]], "containers": [cont]}, **extra))
+                yield dict(base, **dict({fld: vals[lo:idx + 2], "containers": [cont]}, **extra))
         if fn is not None:
             yield base
     elif case["kind"] in ("rh", "lapse"):
@@ -367,7 +374,14 @@ def _candidates(case, detail):
             yield base
 
 
+_TRACES = [0]
+
+
 def _exc_detail(exc):
+    """traceback text is expensive (attribute suggestions): only for the first few"""
+    _TRACES[0] += 1
+    if _TRACES[0] > 8:
+        return {"exception": repr(exc)[:300]}
     return {"exception": repr(exc)[:300], "trace": traceback.format_exc()[-700:]}
 
 
